@@ -81,20 +81,32 @@ def strip_comments(text):
     return "\n".join(line.split("--")[0] for line in text.splitlines())
 
 
-def audit_tokens():
+def import_closure(modules):
+    """project-local modules reachable through `import` lines from the given modules"""
+    seen, todo = set(), list(modules)
+    while todo:
+        m = todo.pop()
+        if m in seen:
+            continue
+        path = os.path.join(LEAN, *m.split(".")) + ".lean"
+        if not os.path.exists(path):
+            continue
+        seen.add(m)
+        for line in open(path).read().splitlines():
+            mm = re.match(r"\s*(?:public\s+)?import\s+([A-Za-z0-9_.]+)", line)
+            if mm:
+                todo.append(mm.group(1))
+    return sorted(seen)
+
+
+def audit_tokens(modules):
+    """forbidden tokens in every project file the property's proof modules (and the driver) depend on"""
     bad = []
-    for root in ("Valida", "ValidaGen", "ValidaSpec", "ValidaProofs"):
-        for dp, _, files in os.walk(os.path.join(LEAN, root)):
-            for f in files:
-                if f.endswith(".lean"):
-                    path = os.path.join(dp, f)
-                    for i, line in enumerate(strip_comments(open(path).read()).splitlines(), 1):
-                        if FORBIDDEN.search(line):
-                            bad.append(f"{os.path.relpath(path, LEAN)}:{i}: {line.strip()[:100]}")
-    for f in ("Driver.lean",):
-        for i, line in enumerate(strip_comments(open(os.path.join(LEAN, f)).read()).splitlines(), 1):
-            if re.search(r"\b(sorry|admit|implemented_by|unsafe)\b", line):
-                bad.append(f"{f}:{i}: {line.strip()[:100]}")
+    for m in import_closure(list(modules) + ["Driver"]):
+        path = os.path.join(LEAN, *m.split(".")) + ".lean"
+        for i, line in enumerate(strip_comments(open(path).read()).splitlines(), 1):
+            if FORBIDDEN.search(line):
+                bad.append(f"{os.path.relpath(path, LEAN)}:{i}: {line.strip()[:100]}")
     return bad
 
 
@@ -140,7 +152,7 @@ def build_and_audit(pid, tier):
                 out["problems"].append(f"theorem {name} depends on {extra}")
         if not out["theorems"]:
             out["problems"].append("no property theorem found")
-        bad = audit_tokens()
+        bad = audit_tokens(cfg["lean"])
         if bad:
             out["problems"].append("forbidden tokens: " + "; ".join(bad[:6]))
         if tier == "thorough" and not out["problems"]:
